@@ -6,6 +6,7 @@ package control
 // returning defect is a VIOLATION).
 
 import (
+	"fmt"
 	"strings"
 	"testing"
 	"time"
@@ -188,4 +189,34 @@ func TestC05_Finding_F_C05_3(t *testing.T) {
 		{"virtual-clock/handleConn", mk(true, true), "client->upstream stream altered"},
 		{"loopback/composed", mk(false, false), "client->upstream stream altered"},
 	})
+}
+
+// The half-close grace boundary (regression for two harness false alarms): the
+// upstream half-closes at once; the client sees it and writes 2 more bytes 1 ns
+// before, exactly at, and 1 ns after the expiry of the 10 s grace period. Before:
+// the bytes are due. At/after: they may be cut, the relay ends at the expiry.
+func TestC05_Model_GraceBoundary(t *testing.T) {
+	for _, handleConn := range []bool{false, true} {
+		for _, off := range []time.Duration{-time.Millisecond, -1, 0, 1, time.Millisecond} {
+			for _, lead := range []time.Duration{0, 104 * time.Millisecond} {
+				s := &c05Scn{Mem: true, HandleConn: handleConn, Stack: c05StackPlain, ReadChunk: [2]int{1, 1},
+					SniffT: 100 * time.Millisecond, DnsT: TCPDNSFirstReadTimeout, FirstKind: "none", Open: c05OpenPrompt, Close: c05CloseServer,
+					C2U: c05Fill(1, 2), U2C: c05Fill(2, 1), TailAfterFin: true}
+				// the client sleeps `lead` first (so it notices the FIN late), then pauses so
+				// that its write lands at T1 + grace + off, T1 being the relay start.
+				startDelay := time.Duration(0)
+				if handleConn {
+					startDelay = time.Duration(tcpRoutingLookupRetryAttempts-1) * tcpRoutingLookupRetryDelay
+				}
+				pause := startDelay + relayHalfCloseTimeout + off - max(lead, startDelay)
+				s.CSteps = []c05Step{{Op: c05OpSleep, D: lead}, {Op: c05OpWaitEOF}, {Op: c05OpSleep, D: pause}, {Op: c05OpWrite, N: 2}, {Op: c05OpCloseWrite}}
+				s.SSteps = []c05Step{{Op: c05OpWrite, N: 1}, {Op: c05OpCloseWrite}}
+				v := c05RunBubble(t, s, c05NoKnown(true))
+				if v.fail != "" {
+					t.Fatalf("handleConn=%v off=%v lead=%v: %s", handleConn, off, lead, v.fail)
+				}
+				vkCase("C05.findings", fmt.Sprintf("grace|%v|%v|%v", handleConn, off, lead), func() any { return s.Summary() }, "model_grace_boundary")
+			}
+		}
+	}
 }
